@@ -144,12 +144,29 @@ def run_impl_parallel(prop_id, cases, scratch, **kw):
     n = len(cases)
     if n == 0:
         return []
-    workers = min(JOBS, max(1, n // 50))
+    per_worker = getattr(importlib.import_module("props.%s" % prop_id.lower()), "PAR_MIN", 50)  # slow cases: smaller chunks
+    workers = min(JOBS, max(1, n // per_worker))
+    def robust(chunk):
+        """A chunk whose interpreter dies (killed, out of memory, hard timeout) is re-run case by case so that the
+        culprit is identified and reported as a failing case instead of taking the whole check down."""
+        try:
+            return run_impl(prop_id, chunk, scratch, **kw)
+        except (RuntimeError, subprocess.TimeoutExpired) as first:
+            if len(chunk) == 1:
+                return [{"harness_fail": True, "pred_fail": "the implementation process died or hung on this case: %s" % str(first)[-300:]}]
+            res = []
+            for c in chunk:
+                try:
+                    res.extend(run_impl(prop_id, [c], scratch, **dict(kw, timeout=min(kw.get("timeout", 3000), 300))))
+                except (RuntimeError, subprocess.TimeoutExpired) as ex:
+                    res.append({"harness_fail": True, "pred_fail": "the implementation process died or hung on this case: %s" % str(ex)[-300:]})
+            return res
+
     if workers == 1:
-        return run_impl(prop_id, cases, scratch, **kw)
+        return robust(cases)
     chunks = [cases[i::workers] for i in range(workers)]
     with concurrent.futures.ThreadPoolExecutor(workers) as ex:
-        results = list(ex.map(lambda ch: run_impl(prop_id, ch, scratch, **kw), chunks))
+        results = list(ex.map(robust, chunks))
     out = [None] * n
     for w, res in enumerate(results):
         for j, o in enumerate(res):
@@ -226,7 +243,10 @@ def shrink(prop, case, scratch, seed, rounds=6, batch=40):
     if not hasattr(prop, "shrink"):
         return case
     cur = case
+    deadline = time.time() + getattr(prop, "SHRINK_BUDGET_S", 90)
     for _ in range(rounds):
+        if time.time() > deadline:
+            break
         cands = []
         seen = set()
         for c in prop.shrink(cur):
@@ -239,7 +259,7 @@ def shrink(prop, case, scratch, seed, rounds=6, batch=40):
         if not cands:
             break
         try:
-            obs = run_impl(prop.ID, cands, scratch)
+            obs = run_impl_parallel(prop.ID, cands, scratch, timeout=max(30, int(deadline - time.time()) + 60))
             bad = failing_indices(prop, cands, obs, scratch, tag="shr")
         except Exception:  # a candidate the pipeline cannot process is simply not a reduction
             break
@@ -250,7 +270,10 @@ def shrink(prop, case, scratch, seed, rounds=6, batch=40):
 
 
 def failing_indices(prop, cases, obs, scratch, tag):
-    bad = set(evaluate(prop, cases, obs, scratch, tag=tag)) if getattr(prop, "USES_COQ", True) else set()
+    live = [i for i, o in enumerate(obs) if not (isinstance(o, dict) and o.get("harness_fail"))]
+    bad = set()
+    if getattr(prop, "USES_COQ", True) and live:
+        bad = set(live[j] for j in evaluate(prop, [cases[i] for i in live], [obs[i] for i in live], scratch, tag=tag))
     for i, o in enumerate(obs):
         if isinstance(o, dict) and o.get("pred_fail"):
             bad.add(i)
@@ -374,9 +397,9 @@ def run(prop, args, seed, scratch, t0):
             reported += 1
             continue
         small = cases[i] if args.replay else shrink(prop, cases[i], scratch, seed)
-        small_obs = run_impl(prop.ID, [small], scratch)[0]
+        small_obs = run_impl_parallel(prop.ID, [small], scratch)[0]
         model_txt = None
-        if hasattr(prop, "model_eval"):
+        if hasattr(prop, "model_eval") and not (isinstance(small_obs, dict) and small_obs.get("harness_fail")):
             try:
                 _, _, rest = coq_eval(prop, [prop.emit(small, small_obs)], scratch, "rep%d" % i,
                                       extra_eval=prop.model_eval(small, small_obs))
@@ -408,6 +431,9 @@ def run(prop, args, seed, scratch, t0):
     distinct = {}
     hist = {}
     for c, o in zip(cases, obs):
+        if isinstance(o, dict) and o.get("harness_fail"):
+            hist["implementation-process-died"] = hist.get("implementation-process-died", 0) + 1
+            continue
         for k in (prop.describe(c, o) if hasattr(prop, "describe") else []):
             hist[k] = hist.get(k, 0) + 1
         if prop.nontrivial(c, o):
